@@ -631,3 +631,72 @@ Proof.
   - split; [apply F; [repeat constructor; cbn; tauto|constructor|intros p []]|].
     split; eexists; vm_compute; reflexivity.
 Qed.
+
+(* ---------- the executable counters law means the clause ---------- *)
+Theorem partition_ok_sound : forall s pods,
+  partition_ok s pods = true -> (st_cnt s, st_term s) = tally pods.
+Proof.
+  intros s pods H. unfold partition_ok in H. repeat (apply andb_true_iff in H; destruct H as [H ?]).
+  unfold counts_eqb in H. destruct (counts_eq_dec (st_cnt s) (fst (tally pods))) as [E|]; [|discriminate].
+  match goal with H1 : (st_term s =? snd (tally pods)) = true |- _ => apply Z.eqb_eq in H1; rewrite E, H1 end.
+  destruct (tally pods); reflexivity.
+Qed.
+
+(* ---------- an expired delayed action with retryCount >= maxRetry: a written status is Failed ---------- *)
+Theorem maxretry_fails_fire_written : forall w w' e wr,
+  fire w = (w', e, wr) ->
+  st_phase (v_st w) = PhRestarting -> s_maxretry (v_spec w) <= st_retry (v_st w) -> wr = true ->
+  st_phase (v_st w') = PhFailed /\ st_phase (w_st w') = PhFailed.
+Proof.
+  intros w w' e wr H Hre Hmax Hwr. unfold fire in H.
+  destruct (d_queue (c_delay (v_ctl w))) as [|[t cancelled] rest]; [inversion H; subst; discriminate|].
+  set (w0 := with_delays w _) in *.
+  destruct cancelled; [inversion H; subst; discriminate|].
+  destruct (c_job (v_ctl w0)); cbn [negb] in H; [|inversion H; subst; discriminate].
+  destruct (execute w0 (dt_action t) _ []) as [[w1 e1] wr1] eqn:Hx.
+  inversion H; subst. pose proof (execute_nofault _ _ _ _ _ _ Hx eq_refl) as He1.
+  pose proof (execute_outcome _ _ _ _ _ _ _ Hx) as O.
+  destruct (maxretry_fails_gen w0 (dt_action t) w1 e1 true O Hre Hmax) as [_ Hw]. cbn. exact (Hw eq_refl He1).
+Qed.
+
+(* ---------- overlapping executions (a timer racing the worker for the same job) ----------
+   The goroutine of an expired delayed action and the worker share no lock; what arbitrates two
+   overlapping executions in a cluster is the API server's resourceVersion check on UpdateStatus: the
+   later writer holds a stale object and is refused.  An execution all of whose status updates are
+   refused -- whatever (stale) view it started from, whatever it did to pods -- leaves the status on
+   the API server exactly as it was. *)
+Theorem refused_status_writer : forall w a r F w' e wr,
+  execute w a r F = (w', e, wr) -> (forall n, fails_status F n = true) ->
+  w_st w' = w_st w /\ wr = false.
+Proof.
+  intros w a r F w' e wr H HF. unfold execute in H.
+  destruct (exec (st_phase (v_st w)) a) as [[|rt|] u].
+  - unfold sync_job, sync_job_gen in H.
+    destruct (c_vdel (v_ctl w)); [inversion H; auto|].
+    destruct (c_queue (v_ctl w)); cbn [negb] in H; [|inversion H; auto].
+    rewrite !HF in H. rewrite andb_true_r in H.
+    destruct (phase_beq (st_phase (v_st w)) PhNone); [inversion H; auto|].
+    cbv zeta in H.
+    repeat match type of H with context [if ?c then _ else _] => destruct c end;
+      inversion H; subst; fin; auto.
+  - unfold kill_pods, kill_pods_gen in H. destruct (c_vdel (v_ctl w)); [inversion H; auto|].
+    destruct (kill_select _ _ _ _ _) as [kill term0]. rewrite HF in H.
+    destruct (any_fault F kill); inversion H; subst; cbn; auto.
+  - unfold kill_pods, kill_pods_gen in H. destruct (c_vdel (v_ctl w)); [inversion H; auto|].
+    destruct (target_of a r) as [t|t p|]; try (inversion H; auto; fail).
+    all: destruct (kill_select _ _ _ _ _) as [kill term0]; rewrite HF in H;
+      destruct (any_fault F kill); inversion H; subst; cbn; auto.
+Qed.
+
+Theorem refused_status_writer_req : forall w r F w' e wr,
+  step_req w r F = (w', e, wr) -> (forall n, fails_status F n = true) -> w_st w' = w_st w /\ wr = false.
+Proof.
+  intros w r F w' e wr H HF. unfold step_req in H.
+  set (w0 := with_delays w (clean_pod_delay (c_delay (v_ctl w)) r)) in *.
+  destruct (c_job (v_ctl w0)); cbn [negb] in H; [|inversion H; subst; auto].
+  destruct (apply_policies_d (v_spec w0) (v_st w0) r) as [a delayed].
+  destruct delayed; [inversion H; subst; auto|].
+  destruct (execute w0 a r F) as [[w1 e1] wr1] eqn:Hx.
+  destruct (refused_status_writer _ _ _ _ _ _ _ Hx HF) as [A B].
+  destruct (negb e1 && negb (is_internal_action a)); inversion H; subst; cbn; auto.
+Qed.
